@@ -73,6 +73,20 @@ CODES = {
 }
 
 
+def code_of(k, L):
+    """The recorded code entry for a family member of side L (sides of one
+    and two digits: as strings '12' sorts before '4')."""
+    c = json.loads(json.dumps(CODES[k]))
+    dim3 = c['parameters']['L_z'] is not None
+    c['parameters'].update({'L_x': L, 'L_y': L})
+    if dim3:
+        c['parameters']['L_z'] = L
+    c['n'] = {1: L * L + (L - 1) ** 2, 2: 2 * L * L, 3: 3 * L ** 3,
+              9: 3 * L ** 3}[k]
+    c['d'] = L
+    return c
+
+
 def gen_multiset(rng):
     nkeys = int(rng.integers(2, 6))
     keys = []
@@ -91,7 +105,9 @@ def gen_multiset(rng):
         dec = {'name': 'BeliefPropagationOSDDecoder', 'parameters': {
             'max_bp_iter': 10, 'channel_update': False, 'osd_order': 0,
             'bp_method': 'minimum_sum'}}
-        ident = (k, rate, bias)
+        L = int(rng.choice([3, 4, 8, 12])) if k != 9 else \
+            int(rng.choice([2, 4, 12]))
+        ident = (k, rate, bias, L)
         if ident in seen:
             continue
         seen.add(ident)
@@ -113,7 +129,7 @@ def gen_multiset(rng):
         elif mode == 'x-only':
             ee[:, k:] = 0
         succ = cs & ~ee.any(axis=1)
-        inputs = {'code': CODES[k], 'error_model': em, 'decoder': dec,
+        inputs = {'code': code_of(k, L), 'error_model': em, 'decoder': dec,
                   'error_rate': rate,
                   'method': {'name': 'direct', 'parameters': {}}}
         if rate == 0.0 and rng.random() < 0.5:
